@@ -6,8 +6,8 @@ virtual time and, at quiescence, no node lock and no qubit lock is held."""
 from .. import core
 from .. import schedcase
 
-LEAN_TARGETS = ["SqVerif.Props.C04"]
-PROPS_FILE = ["SqVerif/Props/C04Skel.lean"]
+LEAN_TARGETS = ["SqVerif.Props.C04", "SqVerif.Props.C04Live"]
+PROPS_FILE = ["SqVerif/Props/C04Skel.lean", "SqVerif/Props/C04Live.lean"]
 DRIVE_TARGETS = ["SqVerif.Drive.VNet"]
 TRUSTED = [
     "harness/simnet.py: fake reactor + Perspective Broker over in-memory pipes, one schedulable event per PB message, "
